@@ -21,6 +21,7 @@ pub mod c18;
 pub mod c19;
 pub mod c20;
 pub mod codec_common;
+pub mod resume;
 pub mod typed;
 
 pub fn registry() -> Vec<PropMeta> {
